@@ -1,6 +1,7 @@
 package main
 
 import (
+	"go/constant"
 	"go/token"
 	"go/types"
 
@@ -170,7 +171,88 @@ func edgeRel(iff *ssa.If, br int) (Rel, bool) {
 	if !truth {
 		op = negOp(op)
 	}
-	return Rel{c.Bin.X, c.Bin.Y, op}, true
+	return canonRelation(Rel{c.Bin.X, c.Bin.Y, op}), true
+}
+
+// canonRelation rewrites an integer comparison into the form the guards are written against, so that
+// algebraically equal spellings decide the same way: a constant goes to the right; `x <= y-1` is
+// `x < y`, `x >= y+1` is `x > y`, `x < y+1` is `x <= y`, `x > y-1` is `x >= y`; for a length
+// (never negative) `< 1` and `<= 0` are `== 0`, and `>= 1`, `!= 0` are `> 0`. Only single-term
+// sides are rewritten; anything else is returned unchanged.
+func canonRelation(r Rel) Rel {
+	bx, ok := r.X.Type().Underlying().(*types.Basic)
+	if !ok || bx.Info()&types.IsInteger == 0 {
+		return r
+	}
+	lx, ly := linOfValue(r.X), linOfValue(r.Y)
+	atom := func(l linComb) (ssa.Value, bool) {
+		if len(l.terms) == 0 {
+			return nil, true
+		}
+		if len(l.terms) == 1 {
+			for t, cf := range l.terms {
+				if cf == 1 {
+					return l.atoms[t], true
+				}
+			}
+		}
+		return nil, false
+	}
+	ax, okx := atom(lx)
+	ay, oky := atom(ly)
+	if !okx || !oky {
+		return r
+	}
+	op := r.Op
+	if ax == nil && ay == nil {
+		return r
+	}
+	if ax == nil { // constant on the left: swap
+		ax, ay = ay, ax
+		lx, ly = ly, lx
+		op = swapOp(op)
+	}
+	d := ly.k - lx.k // ax <op> ay + d
+	mk := func(k int64) ssa.Value { return ssa.NewConst(constant.MakeInt64(k), ax.Type()) }
+	if ay == nil {
+		// against a constant d
+		nonNeg := lenOf(ax) != nil
+		if bt, ok := ax.Type().Underlying().(*types.Basic); ok && bt.Info()&types.IsUnsigned != 0 {
+			nonNeg = true
+		}
+		if nonNeg {
+			switch {
+			case op == token.LSS && d == 1, op == token.LEQ && d == 0:
+				return Rel{ax, mk(0), token.EQL}
+			case op == token.GEQ && d == 1, op == token.NEQ && d == 0:
+				return Rel{ax, mk(0), token.GTR}
+			}
+		}
+		if lx.k == 0 && r.X == ax {
+			if _, isC := r.Y.(*ssa.Const); isC && op == r.Op {
+				return r // already canonical
+			}
+		}
+		return Rel{ax, mk(d), op}
+	}
+	switch {
+	case d == 0:
+	case d == -1 && op == token.LEQ:
+		op, d = token.LSS, 0
+	case d == 1 && op == token.GEQ:
+		op, d = token.GTR, 0
+	case d == 1 && op == token.LSS:
+		op, d = token.LEQ, 0
+	case d == -1 && op == token.GTR:
+		op, d = token.GEQ, 0
+	}
+	if d != 0 {
+		return r
+	}
+	if !types.Identical(ax.Type(), ay.Type()) {
+		return r
+	}
+	return Rel{ax, ay, op}
 }
 
 // upperBoundEdge: on this edge, match(v) <= max for some operand v (max < 0 means: any constant bound).
